@@ -46,7 +46,9 @@ def phi_1D(xx, nu=1.0, theta0=1.0, gamma=0, h=0.5, theta=None, beta=1, deme_ids=
     # Modified to incorporate fact that for beta != 1, we get a term of 
     # 4*beta/(beta+1)^2 in V. This can be implemented by rescaling gamma
     # and rescaling the final phi.
-    gamma = gamma * 4.*beta/(beta+1.)**2
+    # Likewise, drift is weaker by a factor nu in a population of relative
+    # size nu, so the equilibrium depends on gamma*nu (= 2*nu*Nref*s).
+    gamma = gamma * nu * 4.*beta/(beta+1.)**2
 
     # Our final result is of the form 
     # exp(Q) * int_0_x exp(-Q) / int_0_1 exp(-Q)
@@ -134,8 +136,9 @@ def phi_1D_genic(xx, nu=1.0, theta0=1.0, gamma=0, theta=None, beta=1):
     if gamma == 0:
         return phi_1D_snm(xx, nu, theta0, beta=beta)
 
-    # Beta effectively re-scales gamma.
-    gamma = gamma * 4.*beta/(beta+1.)**2
+    # Beta effectively re-scales gamma, as does the population size nu
+    # (the equilibrium depends on 2*nu*Nref*s = gamma*nu).
+    gamma = gamma * nu * 4.*beta/(beta+1.)**2
 
     exp = numpy.exp
     # Using expm1(x) = exp(x)-1 avoids loss of precision (and 0/0) for small
